@@ -802,10 +802,12 @@ impl Arena {
     let mut allocated = header.allocated.load(Ordering::Acquire);
 
     loop {
-      let want = allocated + size;
-      if want > self.cap {
+      // computed in u64: `allocated + size` must not wrap around for huge requests
+      let want = allocated as u64 + size as u64;
+      if want > self.cap as u64 {
         break;
       }
+      let want = want as u32;
 
       match header.allocated.compare_exchange_weak(
         allocated,
@@ -951,10 +953,11 @@ impl Arena {
     let want = loop {
       let aligned_offset = align_offset::<T>(allocated);
       let size = mem::size_of::<T>() as u32;
-      let want = aligned_offset + size + extra;
-      if want > self.cap {
-        break size + extra;
+      let want = aligned_offset as u64 + size as u64 + extra as u64;
+      if want > self.cap as u64 {
+        break size.saturating_add(extra);
       }
+      let want = want as u32;
 
       match header.allocated.compare_exchange_weak(
         allocated,
@@ -988,7 +991,7 @@ impl Arena {
           });
         }
         Freelist::Optimistic => {
-          match self.alloc_slow_path_optimistic(Self::pad::<T>() as u32 + extra) {
+          match self.alloc_slow_path_optimistic((Self::pad::<T>() as u32).saturating_add(extra)) {
             Ok(mut bytes) => {
               bytes.align_bytes_to::<T>();
               return Ok(Some(bytes));
@@ -1001,7 +1004,7 @@ impl Arena {
           }
         }
         Freelist::Pessimistic => {
-          match self.alloc_slow_path_pessimistic(Self::pad::<T>() as u32 + extra) {
+          match self.alloc_slow_path_pessimistic((Self::pad::<T>() as u32).saturating_add(extra)) {
             Ok(mut bytes) => {
               bytes.align_bytes_to::<T>();
               return Ok(Some(bytes));
@@ -1102,10 +1105,11 @@ impl Arena {
     let want = loop {
       let align_offset = align_offset::<T>(allocated);
       let size = t_size as u32;
-      let want = align_offset + size;
-      if want > self.cap {
+      let want = align_offset as u64 + size as u64;
+      if want > self.cap as u64 {
         break size;
       }
+      let want = want as u32;
 
       match header.allocated.compare_exchange_weak(
         allocated,
